@@ -174,7 +174,7 @@ def _map(ctx: Ctx) -> Iterator[Event]:
             if keys is None:
                 from mc.explorer import ScriptedSource
 
-                probe = make_rep("sge", ctx.g, ScriptedSource([0]), d, gene_length=1).create_genotype(ScriptedSource([0]))
+                probe = make_rep("sge", ctx.g, ScriptedSource([0]), 10**5, gene_length=1).create_genotype(ScriptedSource([0]))
                 keys = list(probe.dna.keys())
                 u["_sge_keys"] = keys
             gt = Genotype({k: (list(dna) if k == INFRASTRUCTURE_KEY else [1] * L) for k in keys})
@@ -251,3 +251,90 @@ def _e2(ctx: Ctx) -> Iterator[Event]:
                             depth_limit=d if rep_kind != "stack" else None,
                             extra={"parents_idx": tr.parents, "tr": tr, "mapped": True})
     ctx.stats.merge(ss.stats.explore)
+
+
+# ---------------------------------------------------------------------------------------
+# generic driver used by the producer-based checks
+
+
+def standard_units(tier: str, family=None, deciders=("maxdepth", "full", "pigrow"), with_pt=True,
+                   reps_map=("ge", "sge", "dsge", "stack"), reps_e2=("tree", "ge", "sge", "dsge", "stack")):
+    fam = family if family is not None else G.general_family(tier)
+    us = []
+    for spec in fam:
+        for dec in deciders:
+            for off in (0, 1) if tier == "quick" else (0, 1, 2):
+                us.append({"kind": "tree-create", "spec": spec, "decider": dec, "depth_off": off,
+                           "max_execs": 1500 if tier == "quick" else 20000})
+        if with_pt:
+            us.append({"kind": "tree-create", "spec": spec, "decider": "pt", "depth_off": 0, "horizon": 40,
+                       "max_execs": 400 if tier == "quick" else 5000})
+    small = [s for s in fam if s["name"].split(":")[0] in
+             ("S1", "S2", "S3", "S5", "S6", "S7", "S8", "S9", "S10", "S11", "S12", "S13", "S14", "S15", "S16")]
+    small += [s for s in fam if s["name"].startswith(("F1:", "G1:"))]
+    if tier != "quick":
+        small = fam
+    for spec in small:
+        for rep in reps_map:
+            us.append({"kind": "map", "spec": spec, "rep": rep, "depth_off": 1, "L": 3 if tier == "quick" else 4,
+                       "max_execs": 20 if tier == "quick" else 100})
+        for rep in reps_e2:
+            us.append({"kind": "e2", "spec": spec, "rep": rep, "depth_off": 1, "L": 3 if rep == "stack" else 2,
+                       "K": 2 if tier == "quick" else 3,
+                       "max_states": 25 if tier == "quick" else 80,
+                       "max_execs_per_op": 60 if tier == "quick" else 300})
+    return us
+
+
+def clean_unit(unit):
+    return {k: v for k, v in unit.items() if not k.startswith("_")}
+
+
+def site_of(ev) -> str:
+    names = {
+        ("tree", "create"): "TreeBasedRepresentation.create_genotype",
+        ("tree", "mutate"): "TreeBasedRepresentation.mutate",
+        ("tree", "crossover"): "TreeBasedRepresentation.crossover",
+    }
+    if (ev.rep, ev.op) in names:
+        return names[(ev.rep, ev.op)]
+    if ev.op == "map" or ev.extra.get("mapped"):
+        return f"{ev.rep}.genotype_to_phenotype"
+    return f"{ev.rep}.{ev.op}"
+
+
+def drive(unit, oracle, sample=None):
+    """Run one producer unit; oracle(ctx, ev, r, tm) is called for every event that produced a
+    program (tm = its canonical term).  Returns a UnitResult."""
+    from mc.harness import UnitResult
+
+    r = UnitResult()
+    ctx = open_ctx(unit)
+    try:
+        if ctx.g is None:
+            r.count("extract_failed")
+            return r
+        seen = set()
+        for ev in produce(ctx):
+            r.executions += 1
+            if ev.exc is not None:
+                r.count("library_errors" if is_library_error(ev.exc) else "foreign_exceptions(C01's business)")
+                oracle(ctx, ev, r, None)
+                continue
+            tm = R.term(ev.result)
+            if tm not in seen:
+                seen.add(tm)
+                if len(r.samples) < 2:
+                    r.samples.append(sample(ctx, ev, tm) if sample else
+                                     {"grammar": ctx.spec["name"], "unit": unit["kind"], "rep": ev.rep,
+                                      "decider": unit.get("decider"), "program": R.show(tm)[:200]})
+            oracle(ctx, ev, r, tm)
+        r.states += len(seen)
+        r.capped += ctx.stats.capped_paths
+        r.abstracted += ctx.stats.abstracted_points
+        r.truncated = ctx.stats.truncated
+        if ctx.stats.truncated:
+            r.count("units_truncated_by_exec_cap")
+    finally:
+        ctx.bundle.cleanup()
+    return r
